@@ -69,14 +69,23 @@ func runC15(c *core.Ctx) {
 		max := c.P.LookupObj(coord, "MaxMessageSize")
 		c.Need(max != nil, "coordinator.MaxMessageSize")
 		usesMax := false
-		for _, e := range f.Graph().Events {
-			if e.Kind == core.EvCond {
-				ast.Inspect(e.Node, func(nd ast.Node) bool {
-					if id, ok := nd.(*ast.Ident); ok && f.Info().ObjectOf(id) == max {
-						usesMax = true
-					}
-					return true
-				})
+		// the comparison may sit in ReadLV or in an error-returning helper it calls before allocating
+		scan := []*core.FuncInfo{f}
+		for _, callee := range c.P.Callees(f) {
+			if callee.Decl != nil && core.Rel(callee.Pkg.PkgPath) == coord && callee.ErrResultIndex() >= 0 && !callee.Decl.Name.IsExported() {
+				scan = append(scan, callee)
+			}
+		}
+		for _, g := range scan {
+			for _, e := range g.Graph().Events {
+				if e.Kind == core.EvCond {
+					ast.Inspect(e.Node, func(nd ast.Node) bool {
+						if id, ok := nd.(*ast.Ident); ok && g.Info().ObjectOf(id) == max {
+							usesMax = true
+						}
+						return true
+					})
+				}
 			}
 		}
 		c.Check("frame-bounded-by-protocol-max", f.Name+"/MaxMessageSize", f.PosStr(), usesMax, "ReadLV must compare the decoded frame length with MaxMessageSize before allocating")
@@ -211,7 +220,78 @@ func runC15(c *core.Ctx) {
 				return t != nil && strings.HasSuffix(t.String(), "models.Point")
 			}()
 		}
-		if !errRet {
+		// the scan may have been extracted into a boolean helper: `if containsNilPoint(points) { return err }`
+		helperScan := func(e *core.Event) bool {
+			if e.Kind != core.EvCond {
+				return false
+			}
+			ce, ok := ast.Unparen(e.Node.(ast.Expr)).(*ast.CallExpr)
+			if !ok {
+				return false
+			}
+			fn, ok := core.Callee(pw.Info(), ce).(*types.Func)
+			if !ok {
+				return false
+			}
+			h := c.P.FuncOf(fn)
+			if h == nil || h.Decl == nil || h.Decl.Name.IsExported() || h.NumResults() != 1 {
+				return false
+			}
+			// the helper tests an element of type models.Point against nil and can answer true there
+			found := false
+			for _, he := range h.Graph().Events {
+				if he.Kind != core.EvCond {
+					continue
+				}
+				be, ok := ast.Unparen(he.Node.(ast.Expr)).(*ast.BinaryExpr)
+				if !ok || be.Op != token.EQL || !(isNilExpr(h.Info(), be.Y) || isNilExpr(h.Info(), be.X)) {
+					continue
+				}
+				if t := h.Info().TypeOf(be.X); t == nil || !strings.HasSuffix(t.String(), "models.Point") {
+					continue
+				}
+				for _, ed := range he.Succ {
+					if ed.Cond != nil && ed.Val {
+						for r := range h.Flow().ReachableFrom(ed.To, nil) {
+							if rs, ok := r.Node.(*ast.ReturnStmt); ok && len(rs.Results) == 1 && core.ExprStr(rs.Results[0]) == "true" {
+								found = true
+							}
+						}
+						if rs, ok := ed.To.Node.(*ast.ReturnStmt); ok && len(rs.Results) == 1 && core.ExprStr(rs.Results[0]) == "true" {
+							found = true
+						}
+					}
+				}
+			}
+			return found
+		}
+		if !errRet && len(pw.Graph().Find(nilTest)) == 0 && len(pw.Graph().Find(helperScan)) > 0 {
+			scans := pw.Graph().Find(helperScan)
+			orderRule(c, pw, "failed-decode-is-not-dropped", "nil-point scan", "TSDBStore.WriteToShard", helperScan, evCall(wts))
+			for i, e := range scans {
+				good := false
+				for _, ed := range e.Succ {
+					if ed.Cond != nil && ed.Val {
+						// on the true edge no WriteToShard is reachable and a return with a non-nil error follows
+						reach := pw.Flow().ReachableFrom(ed.To, nil)
+						reach[ed.To] = true
+						wrote, rejected := false, false
+						for r := range reach {
+							if r.Kind == core.EvCall && wts(r.Call) {
+								wrote = true
+							}
+							if r.Kind == core.EvReturn {
+								if rf, _ := pw.ReturnErrFact(r); rf.Nil == core.NonNil {
+									rejected = true
+								}
+							}
+						}
+						good = rejected && !wrote
+					}
+				}
+				c.Check("failed-decode-is-not-dropped", fmt.Sprintf("%s/nil-point-rejected#%d", pw.Name, i+1), c.P.Pos(e.Pos()), good, "a nil (undecodable) point must make processWriteShardRequest return an error")
+			}
+		} else if !errRet {
 			findOrAbort(c, pw, "nil test of a decoded point", nilTest, 1)
 			// the nil test (loop) precedes every WriteToShard
 			loops := pw.Graph().Loops()
